@@ -221,7 +221,17 @@ def t_uncaught(a, k):
     return [v]
 
 
-RT = dict(expr=[("chk($x)", "(chk {x})", "bind"), ("$e.v", "{e}"), ("len($l)", "(Int.ofNat (List.length {l}))")],
+def t_comp(xs):
+    ys = [chk(x - 3) for x in xs]
+    return ys
+
+
+def t_comp_operand(xs):
+    return [0] + [chk(x) for x in xs if x != 1]
+
+
+RT = dict(expr=[("chk($x)", "(chk {x})", "bind"), ("$e.v", "{e}"), ("len($l)", "(Int.ofNat (List.length {l}))"),
+                ("[$b] + $ys", "([{b}] ++ {ys})")],
           stmt=[("$l.append($v)", "l", "({l} ++ [{v}])")], exc=[("Bad($v)", "{v}")],
           catch={"Bad": "true", "KeyError": "false"})
 T_CASES = [(t_try_loop, "(xs : List Int) : Except Int (List Int)", {"xs": "xs"}),
@@ -229,7 +239,10 @@ T_CASES = [(t_try_loop, "(xs : List Int) : Except Int (List Int)", {"xs": "xs"})
            (t_closure, "(a k : Int) : Except Int (List Int)", {"a": "a", "k": "k"}),
            (t_two, "(a k : Int) : Except Int (List Int)", {"a": "a", "k": "k"}),
            (t_state, "(a k : Int) : Except Int (List Int)", {"a": "a", "k": "k"}),
-           (t_uncaught, "(a k : Int) : Except Int (List Int)", {"a": "a", "k": "k"})]
+           (t_uncaught, "(a k : Int) : Except Int (List Int)", {"a": "a", "k": "k"}),
+           # Translator2TN: comprehensions with a raising element are normalised to the append-loop
+           (t_comp, "(xs : List Int) : Except Int (List Int)", {"xs": "xs"}),
+           (t_comp_operand, "(xs : List Int) : Except Int (List Int)", {"xs": "xs"})]
 
 
 def main_t():
@@ -240,7 +253,7 @@ def main_t():
     expect = []
     for style in (False, True):
         for fn, sig, args in T_CASES:
-            tr = P.Translator2T(P.Rules2T(fn_style=style, **RT))
+            tr = P.Translator2TN(P.Rules2T(fn_style=style, **RT))
             name = fn.__name__ + ("_fn" if style else "")
             text.append("def %s %s :=\n%s\n" % (name, sig, tr.function(fn, args)))
             ps = list(inspect.signature(fn).parameters)
